@@ -131,6 +131,9 @@ class Fn:
         self.cur = None          # statement being translated
         self.seen_text = {}
         self.src = [fdef.name]   # function whose source is being walked (handler or inlined helper)
+        self.fstack = [fdef]
+        self.epoch = {}          # local / self attribute -> number of assignments seen so far
+        self.same = {}           # (text, assignment epochs of what it reads) -> test name
         self.present = set()     # texts (both orientations) of every `if` test of the handler and the helpers
         for fd in [fdef] + list(self.helpers.values()):
             for x in ast.walk(fd):
@@ -157,7 +160,7 @@ class Fn:
         names = {x.id for x in ast.walk(expr) if isinstance(x, ast.Name) and self.localish(x.id)}
         return N.alpha_test(expr, names)
 
-    def new_test(self, node, expr, kind="if"):
+    def new_test(self, node, expr, kind="if", span=None):
         """register the test of an if / loop; returns (name, polarity).  A named test (KNOWN_TESTS) is
         recognised by its text, by the text of its NEGATION (polarity False: `if x == A: return` and
         `if x != A: ...` are the same test), and — when its exact text occurs nowhere in the function —
@@ -172,6 +175,19 @@ class Fn:
             if hit is not None:
                 expr, flipped, text = hit          # canonical orientation and (named) text
         key = (self.name, text)
+        # the same condition tested again, nothing it reads having been assigned in between, is the SAME
+        # test (unless the occurrences are named individually)
+        deps = ()
+        if not isinstance(expr, str):
+            deps = tuple(sorted((d, self.epoch.get(d, 0)) for d in
+                                {dotted(x) for x in ast.walk(expr) if isinstance(x, (ast.Name, ast.Attribute))}))
+            individually = any(len(k) == 3 and k[:2] == key for k in KNOWN_TESTS)
+            if not individually and (text, deps) in self.same:
+                name = self.same[(text, deps)]
+                lo, hi = (span.lineno, span.end_lineno) if span is not None else (node.body[0].lineno, node.body[-1].end_lineno)
+                self.tests.append({"name": name, "fn": self.src[-1], "line": node.lineno, "text": text, "kind": kind,
+                                   "flipped": flipped, "true_lo": lo, "true_hi": hi, "again": True})
+                return name, not flipped
         occ = self.seen_text.get(key, 0)
         self.seen_text[key] = occ + 1
         if key in KNOWN_TESTS and occ == 0:
@@ -181,8 +197,11 @@ class Fn:
         else:
             name = f"{self.name.strip('_')}_{kind}{self.ntest}"
         self.ntest += 1
+        lo, hi = (span.lineno, span.end_lineno) if span is not None else (node.body[0].lineno, node.body[-1].end_lineno)
         self.tests.append({"name": name, "fn": self.src[-1], "line": node.lineno, "text": text, "kind": kind,
-                           "flipped": flipped, "true_lo": node.body[0].lineno, "true_hi": node.body[-1].end_lineno})
+                           "flipped": flipped, "true_lo": lo, "true_hi": hi})
+        if not isinstance(expr, str):
+            self.same[(text, deps)] = name
         return name, not flipped
 
     def known_exact(self, text):
@@ -273,7 +292,7 @@ class Fn:
         for idx, st in enumerate(stmts):
             if isinstance(st, ast.If) and not st.orelse and st.body and isinstance(st.body[-1], ast.Return) \
                     and st.body[-1].value is None and not any(isinstance(x, ast.Return) for b in st.body[:-1] for x in ast.walk(b)):
-                t = N.simplify(st.test)
+                t = self.test_expr(st.test)
                 self.calls(t, cond, caught)
                 name, pol = self.new_test(st, t)
                 self.walk(st.body[:-1], cond + [(name, pol)], caught)
@@ -382,10 +401,14 @@ class Fn:
             kind, recv, src, alert = mc
             return self.emit(st, cond, {"k": kind, "alert": alert, "expected": src, "left": recv,
                                         "test": f"{recv} != {src}"})
-        t = N.simplify(st.test)
+        t = self.test_expr(st.test)
         self.calls(t, cond, caught)
         name, pol = self.new_test(st, t)
         yes, no = cond + [(name, pol)], cond + [(name, not pol)]
+        if not pol and st.orelse and not N.terminates(st.body) and not N.terminates(st.orelse):
+            # `if not c: A else: B` is `if c: B else: A`: the arms are exclusive, emit the named one first
+            self.walk(st.orelse, no, caught)
+            return self.walk(st.body, yes, caught)
         # `if c: A else: raise E`  ==  `if not c: raise E` ; A     (and the mirror image): the branch
         # that always raises / returns is a guard, the other one continues at the outer level
         if st.orelse and N.terminates(st.orelse) and not N.terminates(st.body):
@@ -398,6 +421,19 @@ class Fn:
             self.walk(st.body, yes, caught)
             if st.orelse:
                 self.walk(st.orelse, no, caught)
+
+    def test_expr(self, test):
+        """the test with negations pushed inwards; a boolean local that is defined once and used only
+        here is replaced by its definition (`ok = a and b` / `if not ok: raise` == `if not a or not b`)"""
+        t = N.simplify(test)
+        core = t.operand if isinstance(t, ast.UnaryOp) and isinstance(t.op, ast.Not) else t
+        if isinstance(core, ast.Name) and self.localish(core.id):
+            f = self.fstack[-1]
+            defs = N.single_defs(f)
+            uses = sum(1 for x in ast.walk(f) if isinstance(x, ast.Name) and x.id == core.id and isinstance(x.ctx, ast.Load))
+            if core.id in defs and uses == 1 and isinstance(defs[core.id], (ast.BoolOp, ast.Compare, ast.UnaryOp)):
+                t = N.simplify(N.substitute(t, {core.id: defs[core.id]}))
+        return t
 
     def mac_source(self, name, node):      # kept for callers that resolve by name
         v = self.resolve_mac(ast.parse(name, mode="eval").body)
@@ -425,9 +461,21 @@ class Fn:
         sched = SCHED.get(dotted(c.args[0]))
         if sched is None:
             bad(st, "push_message on an unknown key schedule")
-        if len(st.body) != 1 or not (isinstance(st.body[0], ast.Expr) and isinstance(st.body[0].value, ast.Call)):
-            bad(st, "push_message body must be a single push_<message>(buf, ..) call")
-        p = st.body[0].value
+        if not st.body or not (isinstance(st.body[-1], ast.Expr) and isinstance(st.body[-1].value, ast.Call)):
+            bad(st, "push_message body must end with the single push_<message>(buf, ..) call")
+        # statements that only prepare the message value (locals, loops appending to a list) may precede
+        # the push; they must not be actions of their own nor write into the buffer
+        before = len(self.steps)
+        self.walk(st.body[:-1], cond, caught)
+        for x in self.steps[before:]:
+            if x["act"]["k"] not in ("local", "ext", "brk"):
+                bad(st, f"a {x['act']['k']} action inside push_message before the push")
+        for prep in st.body[:-1]:
+            for x in ast.walk(prep):
+                if isinstance(x, ast.Name) and x.id == dotted(c.args[1]):
+                    bad(st, "the output buffer is touched inside push_message before the push")
+        self.cur = st
+        p = st.body[-1].value
         m = re.match(r"^push_(\w+)$", dotted(p.func))
         if not m or m.group(1) not in MSG or dotted(p.args[0]) != dotted(c.args[1]):
             bad(st, "push_message body must push a known message into the same buffer")
@@ -501,6 +549,7 @@ class Fn:
         if any(isinstance(x, ast.Return) and x.value is not None for b in body for x in ast.walk(b)):
             bad(call, f"helper {h.name}: `return <value>` in the middle is not understood")
         self.src.append(h.name)
+        self.fstack.append(h)
         if h.name not in self.inlined:
             self.inlined.append(h.name)
         saved = self.cur
@@ -511,9 +560,14 @@ class Fn:
                 self.assign([target], ret, st, cond, caught)
         finally:
             self.src.pop()
+            self.fstack.pop()
             self.cur = saved
 
     def assign(self, targets, value, st, cond, caught):
+        for t in targets:
+            for x in ast.walk(t):
+                if isinstance(x, (ast.Name, ast.Attribute)) and isinstance(getattr(x, "ctx", None), ast.Store):
+                    self.epoch[dotted(x)] = self.epoch.get(dotted(x), 0) + 1
         if len(targets) == 1 and self.inlinable(value) is not None:
             return self.inline(value, targets[0], st, cond, caught)
         tnames = [dotted(t) for t in targets]
@@ -570,10 +624,7 @@ class Fn:
         name = dotted(c.func)
         args = [dotted(a) for a in c.args]
         if name == "self._set_state":
-            m = re.match(r"^State\.(\w+)$", args[0])
-            if not m:
-                bad(st, "_set_state argument")
-            return self.emit(st, cond, {"k": "setState", "state": m.group(1)})
+            return self.set_state(st, c.args[0], cond)
         if name in ("self._setup_traffic_protection", "self.update_traffic_key_cb"):
             d = re.match(r"^Direction\.(\w+)$", args[0])
             e = re.match(r"^Epoch\.(\w+)$", args[1])
@@ -638,6 +689,25 @@ class Fn:
         self.calls(c, cond, caught)
         if not self.steps or self.steps[-1]["line"] != st.lineno:
             self.emit(st, cond, {"k": "local", "name": name}, caught)
+
+    def set_state(self, st, arg, cond):
+        """`_set_state(State.X)`; `_set_state(X if c else Y)` == `if c: _set_state(X) else: _set_state(Y)`;
+        the argument may go through a local defined once"""
+        for _ in range(3):
+            if isinstance(arg, ast.Name) and arg.id in self.locals_def:
+                arg = self.locals_def[arg.id]
+        if isinstance(arg, ast.IfExp):
+            t = N.simplify(arg.test)
+            if any(isinstance(x, ast.Name) and self.localish(x.id) for x in ast.walk(t)):
+                bad(st, "_set_state(.. if c else ..): the condition reads locals")
+            name, pol = self.new_test(st, t, "if", span=arg.body)
+            self.tests[-1]["ifexp"] = True
+            self.set_state(st, arg.body, cond + [(name, pol)])
+            return self.set_state(st, arg.orelse, cond + [(name, not pol)])
+        m = re.match(r"^State\.(\w+)$", dotted(arg))
+        if not m:
+            bad(st, "_set_state argument")
+        return self.emit(st, cond, {"k": "setState", "state": m.group(1)})
 
     def pushed_into(self, buf):
         return getattr(self, "pushed", {}).get(buf)
